@@ -69,7 +69,7 @@ PLAN["C01"] = dict(
           "different canonical case JSON (hash) / enumerated strings are distinct by construction"),
     quick=[
         dict(kind="enum", test="TestC01Scope|TestC01Corpus", solo=True, timeout=900),
-        dict(test="TestC01Rapid", checks=6000, shards=8, counts=["C01.msg"]),
+        dict(test="TestC01Rapid", checks=15000, shards=8, counts=["C01.msg"]),
     ],
     thorough=[
         dict(kind="enum", test="TestC01Scope|TestC01Corpus", solo=True, timeout=3000, env={"VERIF_DEPTH": 1}),
@@ -90,7 +90,7 @@ PLAN["C02"] = dict(
           "suspension before a definitive verdict; distinct by case hash; enumerated strings distinct by construction"),
     quick=[
         dict(kind="enum", test="TestC02Scope", solo=True, timeout=900),
-        dict(test="TestC02Rapid", checks=8000, shards=8, counts=["C02.sub"]),
+        dict(test="TestC02Rapid", checks=20000, shards=8, counts=["C02.sub"]),
     ],
     thorough=[
         dict(kind="enum", test="TestC02Scope", solo=True, timeout=3000, env={"VERIF_DEPTH": 1}),
@@ -112,7 +112,7 @@ PLAN["C03"] = dict(
           "distinct by case hash; enumerated strings distinct by construction"),
     quick=[
         dict(kind="enum", test="TestC03Scope", solo=True, timeout=900),
-        dict(test="TestC03Rapid", checks=4000, shards=8, counts=["C03.prem"]),
+        dict(test="TestC03Rapid", checks=8000, shards=8, counts=["C03.prem"]),
     ],
     thorough=[
         dict(kind="enum", test="TestC03Scope", solo=True, timeout=3000, env={"VERIF_DEPTH": 1}),
@@ -147,5 +147,67 @@ PLAN["C04"] = dict(
         dict(test="TestC04APIRapid", checks=100000, shards=4, counts=["C04.api"], timeout=3000),
         dict(test="TestC04IsoRapid", checks=15000, shards=4, counts=["C04.iso"], race=True, timeout=3000),
         dict(test="TestC04IsoAPIRapid", checks=15000, shards=2, counts=["C04.isoapi"], race=True, timeout=3000),
+    ],
+)
+
+PLAN["C11"] = dict(
+    technique="metamorphic PBT: same text parsed at offset 0 and at offset k behind hostile junk (k = 1..8, up to 3000, and text ending exactly at 65,535); exhaustive over small-scope strings at k=1,2,3",
+    level_text=("Exploration: every parser kind, generated inputs (grammar/mutated/raw), one-shot and chunked; verdicts must be "
+                "equal, returned offsets and every reported field shifted by exactly k, every non-positional value equal. "
+                "k is drawn from 1..8, 9..3000 and the largest legal value 65,535-len (the text ends at the addressing limit); "
+                "junk before the text is hostile (CR, LF, quotes, digits, ':', ';', '<', '='). Exhaustive inside the enumerated scopes."),
+    level_note=_DIFF_NOTE,
+    rule=("case = (parser kind/config, input, k, junk pattern, schedule); non-trivial = k > 0 and a definitive verdict is "
+          "reached; distinct by case hash; enumerated strings distinct by construction"),
+    quick=[
+        dict(kind="enum", test="TestC11Scope", solo=True, timeout=900),
+        dict(test="TestC11Rapid", checks=15000, shards=8, counts=["C11.shift"]),
+    ],
+    thorough=[
+        dict(kind="enum", test="TestC11Scope", solo=True, timeout=3000, env={"VERIF_DEPTH": 1}),
+        dict(test="TestC11Rapid", checks=60000, shards=16, counts=["C11.shift"], timeout=3000),
+    ],
+)
+
+PLAN["C12"] = dict(
+    technique="stateful PBT: generated histories of (input, flags, complete/abandon-while-suspended/fail) + Reset/Init on one object with caller-supplied arrays, then a probe compared step by step with a new object",
+    level_text=("Exploration: for every parser object (message, header values, header list, contact/identity lists, name-addr, "
+                "CSeq, Call-ID, integer, first line, header, token parameter, URI parameter/header lists, parsed URI) a history "
+                "of 1..5 uses - complete parses, parses abandoned after 1-2 calls while suspended, failing parses, each with its "
+                "own flags - each followed by Reset (or Init where it exists), then a probe input under a generated schedule: "
+                "every probe step on the reused object must equal the same step on a new object with fresh arrays of the same "
+                "capacities (verdict, offset, snapshot)."),
+    level_note=_DIFF_NOTE,
+    rule=("case = (object kind, capacities, list of operations, probe input + schedule); non-trivial = the history contains at "
+          "least one abandoned or failed operation and the probe reaches a definitive verdict (URI: both URIs parse); distinct by case hash"),
+    quick=[
+        dict(test="TestC12Rapid", checks=30000, shards=10, counts=["C12.reset"]),
+        dict(test="TestC12URIRapid", checks=20000, shards=2, counts=["C12.uri"]),
+    ],
+    thorough=[
+        dict(test="TestC12Rapid", checks=120000, shards=14, counts=["C12.reset"], timeout=3000),
+        dict(test="TestC12URIRapid", checks=200000, shards=2, counts=["C12.uri"], timeout=3000),
+    ],
+)
+
+PLAN["C13"] = dict(
+    technique="differential PBT: parse with generated capacities (incl. 0 and none) vs ample capacity, per step; exhaustive capacity grid over a corpus",
+    level_text=("Exploration: message parser, header block, header line with values, contact list, URI parameter and URI header "
+                "lists; inputs that parse successfully with ample (96-element) arrays are re-parsed with generated capacities "
+                "under the same schedule: verdict, offset, all counts, type flags, first-of-type headers, From/To/Call-ID/CSeq/"
+                "Content-Length/Expires, identities, contact summary and MaxExpires() must be equal; stored elements must be a "
+                "prefix of the ample result; More()/VNo()/PNo()/HNo() must be consistent with count vs capacity; GetContact(0) "
+                "and GetContact(N-1) must equal the ample first/last; GetMsgSig equal or ErrHdrTrunc when headers did not fit. "
+                "Exhaustive grid header capacity -1..20 x contact capacity -1..14 over the 19-message corpus."),
+    level_note=_DIFF_NOTE,
+    rule=("case = (parser kind, capacities, input, schedule); non-trivial = the input parses successfully and at least one "
+          "capacity is smaller than the corresponding count (something was dropped); distinct by case hash; corpus grid cases distinct by construction"),
+    quick=[
+        dict(kind="enum", test="TestC13Corpus", solo=True, timeout=900),
+        dict(test="TestC13Rapid", checks=30000, shards=10, counts=["C13.cap"]),
+    ],
+    thorough=[
+        dict(kind="enum", test="TestC13Corpus", solo=True, timeout=900),
+        dict(test="TestC13Rapid", checks=100000, shards=16, counts=["C13.cap"], timeout=3000),
     ],
 )
